@@ -102,7 +102,7 @@ func msgID(rc *actor.ReceiveContext) int {
 // (tail SWAP / prev.next store; writeIdx.Add / slot store; enqueuePos CAS / seq store).
 var expectPoints = map[string]map[string]string{
 	"mpsc":   {"Call": "call", "Swap": "mpsc.enq.swap", "Link": "mpsc.enq.link", "CallDeq": "op", "CallEmpty": "op", "Deq": "mpsc.deq", "Empty": "mpsc.isempty"},
-	"seg":    {"Call": "call", "Swap": "seg.enq.reserve", "Link": "seg.enq.store", "CallDeq": "op", "CallEmpty": "op", "Deq": "seg.deq", "Empty": "seg.isempty"},
+	"seg":    {"Call": "call", "Swap": "seg.enq.add", "Link": "seg.enq.store", "CallDeq": "op", "CallEmpty": "op", "Deq": "seg.deq", "Empty": "seg.isempty"},
 	"nbring": {"Call": "call", "Swap": "nbr.enq.reserve", "Link": "nbr.enq.publish", "CallDeq": "op", "CallEmpty": "op", "Deq": "nbr.deq", "Empty": "nbr.isempty"},
 	// fair: all producers share ONE sender identity, so they meet in one inner UnboundedMailbox;
 	// only the inner reserve/publish steps gate, consumer operations run atomically at their call step
@@ -156,6 +156,7 @@ func replay(kind string, behaviours [][]step, h hist, st *replayStats) {
 			s.ControlAll()
 		} else {
 			s.Control(m)
+			s.SkipPoints("seg.enq.reserve", "seg.new.reset", "seg.enq.castail")
 		}
 		// thread programs from the behaviour
 		nmsgs := map[string]int{}
@@ -391,6 +392,136 @@ func stress(kind string, capacity, nprod, nmsgs, histories int, seed int64, h hi
 	h.w.Raw(map[string]any{"ev": "New"})
 }
 
+// ---------------------------------------------------------------- segrace: stale tail vs. recycled segment
+//
+// The schedule of specs/Mailbox/Seg.tla's counterexample (segment size 2 there, 256 here): producer A
+// loads the tail segment S1 and stalls before reserving a slot; S1 fills, rolls over, is drained and
+// returned to the segment pool; a later roll-over takes S1 out of the pool again and is halted inside
+// newSegment after writeIdx was reset; A now reserves slot 0 of S1 and publishes; the reset then clears
+// the slot. With GOMAXPROCS(1) sync.Pool hands back the segment that was just Put.
+func segRace(h hist, rounds int) (reproduced, unreproduced int) {
+	old := runtime.GOMAXPROCS(1)
+	defer runtime.GOMAXPROCS(old)
+	snd := actor.VerifNewSenderPID("m")
+	for r := 0; r < rounds; r++ {
+		h.w.Raw(map[string]any{"ev": "New"})
+		m := actor.NewUnboundedSegmentedMailbox()
+		s := sched.New()
+		s.Watchdog = 3 * time.Second
+		s.ControlAll()
+		s.OnlyPoints("seg.enq.add", "seg.new.reset")
+		enq := func(t string, id int) {
+			h.call(t, "enq", id, t, 0)
+			err := m.Enqueue(actor.VerifNewContext(snd, &Msg{ID: id}))
+			h.ret(t, "enq", b2i(err == nil))
+		}
+		deq := func() int {
+			h.call("c", "deq", 0, "", 0)
+			r := msgID(m.Dequeue())
+			h.ret("c", "deq", r)
+			return r
+		}
+		s.Go("a", func() { s.Yield("call", 0, 0); enq("a", 1) })
+		s.Go("b", func() { s.Yield("call", 0, 0); enq("b", 2) })
+		s.Step("a") // a: tail loaded (S1), parked before writeIdx.Add
+		for i := 0; i < 257; i++ { // fill S1, roll over to S2
+			enq("m", 1000+i)
+		}
+		for i := 0; i < 257; i++ { // drain S1; the 257th dequeue moves head to S2 and pools S1
+			deq()
+		}
+		for i := 0; i < 255; i++ { // fill S2
+			enq("m", 2000+i)
+		}
+		pb, _ := s.Step("b") // b: loads tail S2, parked before its reservation
+		for i := 0; i < 3 && !pb.Done && pb.Point != "seg.new.reset"; i++ {
+			pb, _ = s.Step("b") // S2 full -> newSegment -> (pool) -> writeIdx reset, parked before the rest of the reset
+		}
+		if pb.Point != "seg.new.reset" {
+			unreproduced++
+			s.FreeRun()
+			s.Join(3 * time.Second)
+			s.Close()
+			continue
+		}
+		s.Step("a") // a reserves a slot on its stale tail and publishes
+		s.FreeRun() // b finishes the reset, links the segment, retries
+		s.Join(3 * time.Second)
+		s.Close()
+		got := 0
+		for i := 0; i < 300; i++ {
+			if deq() == 0 {
+				break
+			}
+			got++
+		}
+		h.call("c", "empty", 0, "", 0)
+		h.ret("c", "empty", b2i(m.IsEmpty()))
+		if got == 257 {
+			unreproduced++ // the pool did not hand S1 back (or the code no longer recycles): nothing was lost
+		} else {
+			reproduced++
+		}
+	}
+	h.w.Raw(map[string]any{"ev": "New"})
+	return
+}
+
+// segrace2: the appender of a new segment stalls between linking it (tail.next CAS) and swinging m.tail;
+// the consumer drains and retires the old segment (clearing its next pointer); another producer still sees
+// the old segment as tail, finds next == nil, appends a SECOND successor and swings m.tail onto a chain the
+// consumer never reaches (Seg.tla Defects={ClearNext}, counterexample of NotWedged).
+func segRace2(h hist, rounds int) (lost, ok int) {
+	snd := actor.VerifNewSenderPID("m")
+	for r := 0; r < rounds; r++ {
+		h.w.Raw(map[string]any{"ev": "New"})
+		m := actor.NewUnboundedSegmentedMailbox()
+		s := sched.New()
+		s.Watchdog = 3 * time.Second
+		s.ControlAll()
+		s.OnlyPoints("seg.enq.castail")
+		enq := func(t string, id int) {
+			h.call(t, "enq", id, t, 0)
+			err := m.Enqueue(actor.VerifNewContext(snd, &Msg{ID: id}))
+			h.ret(t, "enq", b2i(err == nil))
+		}
+		deq := func() int {
+			h.call("c", "deq", 0, "", 0)
+			r := msgID(m.Dequeue())
+			h.ret("c", "deq", r)
+			return r
+		}
+		for i := 0; i < 256; i++ { // fill the first segment
+			enq("m", 1000+i)
+		}
+		s.Go("a", func() { enq("a", 1) }) // a: links a new segment, parks before swinging m.tail
+		for i := 0; i < 257; i++ {         // drain and retire the first segment
+			deq()
+		}
+		enq("m", 2) // still sees the retired segment as tail
+		s.FreeRun()
+		s.Join(3 * time.Second)
+		s.Close()
+		enq("m", 3)
+		got := 0
+		for i := 0; i < 10; i++ {
+			if deq() == 0 {
+				break
+			}
+			got++
+		}
+		h.call("c", "empty", 0, "", 0)
+		h.ret("c", "empty", b2i(m.IsEmpty()))
+		if got == 3 {
+			ok++
+		} else {
+			lost++
+		}
+	}
+	h.w.Raw(map[string]any{"ev": "New"})
+	return
+}
+
 func main() {
 	if len(os.Args) < 2 {
 		fatal("usage: mailbox replay|stress ...")
@@ -416,6 +547,26 @@ func main() {
 		}
 		out, _ := json.Marshal(st)
 		fmt.Println(string(out))
+	case "segrace", "segrace2":
+		if len(os.Args) != 4 {
+			fatal("usage: mailbox segrace <rounds> <trace>")
+		}
+		rounds, _ := strconv.Atoi(os.Args[2])
+		w, err := vtrace.Create(os.Args[3])
+		if err != nil {
+			fatal(err)
+		}
+		var rep, unrep int
+		if os.Args[1] == "segrace2" {
+			rep, unrep = segRace2(hist{w}, rounds)
+		} else {
+			rep, unrep = segRace(hist{w}, rounds)
+		}
+		n := w.Count()
+		if err := w.Close(); err != nil {
+			fatal(err)
+		}
+		fmt.Printf("{\"rounds\":%d,\"lost\":%d,\"nothing_lost\":%d,\"events\":%d}\n", rounds, rep, unrep, n)
 	case "stress":
 		if len(os.Args) != 9 {
 			fatal("usage: mailbox stress <kind> <cap> <producers> <msgs> <histories> <seed> <trace>")
